@@ -126,6 +126,7 @@ package querylog
 // (rewound to its end) at the moment the reader crosses into it, whichever way the current position was reached
 // (SeekStart or a timestamp seek).
 //@ define readable(q *qLogFile) bool = window(q) && inWindow(q) && 0 <= q.position && q.position <= os.fsize(q.file)
+//@ define onRecordAt(r *qLogReader, ts int) bool = 0 <= r.currentFile && r.currentFile < len(r.qFiles) && lineTS(r.qFiles[r.currentFile].file, lineStart(r.qFiles[r.currentFile].file, r.qFiles[r.currentFile].position)) == ts
 //@ define filesOK(r *qLogReader) bool = forall k int :: {mark(k)} 0 <= k && k < len(r.qFiles) ==> r.qFiles[k] != nil && !held(r.qFiles[k].lock) && shortLines(r.qFiles[k].file)
 //@ func (r *qLogReader) ReadNext() (r0 string, r1 error)
 //@   property C20
@@ -145,14 +146,27 @@ package querylog
 //@   property C20
 //@   requires filesOK(r)
 //@   ensures r0 == nil && len(r.qFiles) > 0 ==> r.currentFile == len(r.qFiles) - 1 && readable(r.qFiles[r.currentFile])
+//@   ensures files-kept: r.qFiles == old(r.qFiles) && filesOK(r) && io.EOF == old(io.EOF) && r.onRecord == old(r.onRecord)
 //@   modifies *
 //@ func (r *qLogReader) seekTS(ctx context.Context, timestamp int64) (err error)
 //@   property C20
 //@   requires filesOK(r)
 //@   ensures positioned: err == nil && len(r.qFiles) > 0 ==> 0 <= r.currentFile && r.currentFile < len(r.qFiles) && readable(r.qFiles[r.currentFile])
+//@   ensures files-kept: r.qFiles == old(r.qFiles) && filesOK(r) && io.EOF == old(io.EOF)
+//@   ensures exact-means-on-the-record: err == nil && r.onRecord ==> onRecordAt(r, timestamp)
 //@   modifies *
-//@   loop 1 invariant -1 <= i && i < len(r.qFiles) && r.qFiles == old(r.qFiles) && filesOK(r)
+//@   loop 1 invariant -1 <= i && i < len(r.qFiles) && r.qFiles == old(r.qFiles) && filesOK(r) && io.EOF == old(io.EOF) && !r.onRecord
 //@   loop 1 invariant i < len(r.qFiles) - 1 ==> err != nil
+
+// Positioning for a page: the record at the cursor is skipped - and only that one.  When the cursor is newer than
+// everything on file (the page boundary fell on an entry that was still in memory) the reader starts at the newest
+// record on file, which belongs to the page and must not be skipped.
+//@ func (r *qLogReader) seekRecord(ctx context.Context, olderThan time.Time) (err error)
+//@   property C07
+//@   requires filesOK(r)
+//@   requires eof-sentinel: io.EOF != nil
+//@   callsite (*github.com/AdguardTeam/AdGuardHome/internal/querylog.qLogReader).ReadNext(r2) requires skips-only-the-cursor-record: onRecordAt(r, inst(olderThan))
+//@   modifies *
 
 // ---- C07: search, paging ----
 
